@@ -260,10 +260,10 @@ func SelfTest() error {
 		want              uint64
 	}
 	for _, c := range []sz{
-		{0, 0, 0, false, 10},       // version, two zero counts, locktime
-		{1, 1, 107, false, 192},    // the classic 1-in 1-out P2PKH transaction
-		{1, 2, 107, false, 226},    // 1-in 2-out
-		{2, 2, 107, false, 374},    // 2-in 2-out
+		{0, 0, 0, false, 10},        // version, two zero counts, locktime
+		{1, 1, 107, false, 192},     // the classic 1-in 1-out P2PKH transaction
+		{1, 2, 107, false, 226},     // 1-in 2-out
+		{2, 2, 107, false, 374},     // 2-in 2-out
 		{1, 2, 0, false, 226 - 107}, // unsigned
 		{1, 2, 0, true, 226},
 		{1, 2, 106, true, 225}, // a signed input keeps its own length
